@@ -84,6 +84,14 @@ fn generic_args_json<'tcx>(tcx: TyCtxt<'tcx>, args: GenericArgsRef<'tcx>) -> J {
     )
 }
 
+fn const_generic_args_json<'tcx>(_tcx: TyCtxt<'tcx>, args: GenericArgsRef<'tcx>) -> J {
+    J::Arr(
+        args.iter()
+            .filter_map(|a| a.as_const().map(|c| J::s(format!("{}", c))))
+            .collect(),
+    )
+}
+
 fn const_json<'tcx>(cx: &mut Ctx<'tcx>, env: TypingEnv<'tcx>, c: &Const<'tcx>) -> J {
     let tcx = cx.tcx;
     let t = c.ty();
@@ -281,6 +289,7 @@ fn callee_json<'tcx>(cx: &mut Ctx<'tcx>, c: &Callee<'tcx>) -> J {
             let rdid = inst.def_id();
             o.set("path", J::s(def_path(tcx, rdid)));
             o.set("args", generic_args_json(tcx, inst.args));
+            o.set("const_args", const_generic_args_json(tcx, inst.args));
             o.set("local", J::Bool(rdid.is_local()));
             o.set("crate", J::s(crate_of(tcx, rdid)));
             o.set("shim", J::Bool(!matches!(inst.def, ty::InstanceKind::Item(_))));
